@@ -135,4 +135,59 @@ example : routerPass (some [98]) (some [97]) none [⟨sXFProto, []⟩, ⟨sXFPro
       [.hdr sXFProto sHttp, .hdr cXFHost [101], .hdr [120] [49], .hdr cXFProto sHttp, .hdr sXFHost [102], .hdr sXFProto [103]]
     = [.hdr [120] [49], .hdr cHost [98], .hdr cXFHost [97], .hdr sXFProto sHttps] := by decide
 
+/-- **End-to-end fidelity toward an HTTP/1.1 backend** (H1→H1 and H2→H1: the
+    block list `fs` is what either frontend hands to the editor). For every
+    context, rewrite configuration, request edits, block list and cookie jar:
+    restricted to the names neither the editor nor the frontend's rules own,
+    the header lines written to the backend after `on_request_headers` *and*
+    the router's rewrite / edit pass are exactly the lines the client's own
+    headers would produce — same names, values, order, cookie line included. -/
+theorem C13_fidelity_end_to_end_h1 (c : Ctx) (rh og rp : Option Bytes) (edits : List ReqEdit)
+    (fs : List Field) (jar : List Crumb) (hck : keepName c rh edits cCookie = true) :
+    (emitFields (routerPass rh og rp edits (editRequest c fs)) jar).filter (keepLine c rh edits)
+      = (emitFields fs jar).filter (keepLine c rh edits) :=
+  fidelity_h1 c rh og rp edits fs jar hck
+
+/-- **End-to-end fidelity toward an HTTP/2 backend** (H1→H2 and H2→H2): the
+    same through the HTTP/2 header filter (`H2BlockConverter`): what crosses
+    into HTTP/2 under an end-to-end name is exactly what the client's own
+    headers produce through that filter (connection-specific fields dropped,
+    names lower-cased), in order. -/
+theorem C13_fidelity_end_to_end_h2 (c : Ctx) (rh og rp : Option Bytes) (edits : List ReqEdit)
+    (fs : List Field) (jar : List Crumb) (hck : keepName c rh edits sCookie = true) :
+    (h2Fields (routerPass rh og rp edits (editRequest c fs)) jar).filter (keepLine c rh edits)
+      = (h2Fields fs jar).filter (keepLine c rh edits) :=
+  fidelity_h2 c rh og rp edits fs jar hck
+
+example : keepName exampleCtx (some [98]) [⟨sXFProto, []⟩] cCookie = true ∧
+    (emitFields (routerPass (some [98]) (some [97]) none [⟨sXFProto, []⟩] (editRequest exampleCtx exampleFields))
+        [{ key := [107], val := [118] }]).filter (keepLine exampleCtx (some [98]) [⟨sXFProto, []⟩])
+      = [([97], [49]), (cCookie, [107, 61, 118]), ([98], [50])] := by decide
+
+/-- **rewrite_host: the proxy-owned pair.** With `rewrite_host` (and no
+    operator edit naming them) the backend receives exactly one `Host` block —
+    the rewritten one — and exactly one `X-Forwarded-Host` — the pre-rewrite
+    authority: no client-supplied copy of either survives, however many the
+    client sent and in whatever case. -/
+theorem C13_rewrite_host_owned (h o : Bytes) (rp : Option Bytes) (edits : List ReqEdit) (fs : List Field)
+    (hno : ∀ e ∈ edits, eqNoCase e.key sHost = false ∧ eqNoCase e.key sXFHost = false) :
+    namedFields sHost (routerPass (some h) (some o) rp edits fs) = [.hdr cHost h] ∧
+    namedFields sXFHost (routerPass (some h) (some o) rp edits fs) = [.hdr cXFHost o] :=
+  rewrite_host_owned h o rp edits fs hno
+
+/-- non-vacuity examples for the remaining statements -/
+example : liveCrumbs (editJar exampleCtx [{ key := [97], val := [49] }, { key := [83], val := [120] }]) =
+    [{ key := [97], val := [49] }] := by decide
+
+example : namedFields sXFProto (editRequest exampleCtx exampleFields) = [.hdr cXFProto [104]] ∧
+    namedFields sXFPort (editRequest exampleCtx [.hdr cXFPort [55]]) = [.hdr cXFPort [55]] := by decide
+
+example : h2Fields [.hdr cConnection sClose, .hdr [65] [49], .hdr sTe [103], .cookies] [{ key := [107], val := [118] }]
+    = [([97], [49]), (sCookie, [107, 61, 118])] := by decide
+
+example : editResponse exampleCtx [.hdr [97] [49]] = [.hdr [97] [49], .hdr [73, 100] [82]] := by decide
+
+example : applyEdits [⟨[97], [], .append⟩, ⟨[98], [50], .set⟩] [.hdr [65] [49], .hdr [99] [51], .hdr [98] [52]]
+    = [.hdr [99] [51], .hdr [98] [50]] := by decide
+
 end Sozu.Headers
